@@ -31,13 +31,38 @@ NEEDS = {
  "C06-A": "Debug of the CTAP2 make_credential Response: the attested key's in-memory params still contain -4 => d although the encoded bytes are clean (two cooperating sites)",
  "C06-B": "HmacSecretConfig::new_without_uv + a registration requesting prf/hmac-secret + Debug of the stored Passkey: cred_without_uv printed",
 }
+NEEDS.update({
+ "C02r2-A": "an authenticator with a non-zero AAGUID and attestation 'none': the attestation object's authData has the AAGUID zeroed while response.authenticatorData keeps it",
+ "C02r2-B": "a non-empty algorithm list made only of algorithms the library knows but does not support (e.g. [RS256]) passed through Client::register: it is filtered to empty and then replaced by the defaults",
+ "C03r2-A": "a caller origin with an explicit non-default port: the port is dropped from clientDataJSON.origin",
+ "C03r2-B": "an allow list of two or more entries of which exactly one is held and it is not the first: the response omits the credential and the client reports the first allow-list id",
+ "C04r2-A": "exclude-list hit while consent is missing (no touch, failed verification, uv without capability): CredentialExcluded is returned through the raw validation call, disclosing existence",
+ "C04r2-B": "userVerification=required on an authenticator whose verification is absent or unconfigured: the new map_uv downgrades it to uv=false and the ceremony succeeds",
+ "C05r2-A": "another task holds the shared store's lock at the instant of the exclude lookup: try_lock makes the lookup answer ChannelBusy, make_credential treats any lookup error as 'nothing held' (two cooperating sites)",
+ "C05r2-B": "exclude list naming a held credential of the same RP that was created for a different user handle: ignored",
+ "C07r2-A": "credProps requested and the store lookup made after the successful save fails: Client::register returns Err while the store gained the credential",
+ "C07r2-B": "credential with counter and user handle, assertion without UV, failing or cancelled at/after update_credential: the stored record loses its user handle",
+ "C08r2-A": "CTAP-level assertion with up=false on a credential with a counter: n+1 reported, n stored",
+ "C08r2-B": "a counter whose two middle bytes differ (>= 256): they are swapped in the serialised authenticator data",
+ "C09r2-A": "prfAlreadyHashed carrying evalByCredential plus an allow list: per-credential salts are hashed again and their length is no longer validated",
+ "C09r2-B": "CTAP-level make_credential with prf or hmac-secret sent to an authenticator without HmacSecretConfig: a secret is stored",
+ "C15r2-A": "many never-completed CTAPHID initialisation packets with BCNT 0xFFFF on pairwise different channels: 64 KiB retained per 64-byte packet",
+ "C15r2-B": "authenticator data with AT set whose credential-id length exceeds the bytes that follow by 1..18: split_at panics",
+ "C16r2-A": "payload lengths where the last continuation carries 57 or 58 bytes (114, 115, 173, 174, ...) with non-zero stale bytes: last packet not zero padded",
+ "C16r2-B": "schedule X.init Y.init X.cont(not last) ... Y.cont with X of at least 3 packets: the displaced channel's partial message is re-inserted under the wrong key and lost",
+ "C19r2-A": "two assertions on the same credential, the second starting while the first waits in its user prompt: map-then-gate vs gate-then-map lock order deadlocks",
+ "C19r2-B": "the same authenticator object asserting again after another authenticator asserted in between (A, B, A): the counter comes from per-authenticator memory, a value is reused",
+})
 results = {}
-for f in sorted(glob.glob("/tmp/amut*.out.json")):
+for f in sorted(glob.glob("/tmp/amut*.out.json")) + sorted(glob.glob("/tmp/bmut*.out.json")):
     for r in json.load(open(f)):
         results.setdefault(r["name"], []).append({"campaign": os.path.basename(f), "caught_by_expected": r.get("caught_by_expected"), "fired": r.get("fired", {}), "cross_talk": r.get("cross_talk")})
 for name, needs in sorted(NEEDS.items()):
     pid, v = name.split("-")
     src = f"/tmp/wt/{pid}.out/{v}"
+    pid = pid[:3]
+    if not os.path.isdir(src) and os.path.isdir(f"/verif/seeded/{name}"):
+        continue  # kept in an earlier round
     if not os.path.isdir(src):
         print("missing", src); continue
     dst = f"/verif/seeded/{name}"
